@@ -310,6 +310,43 @@ func init() {
 		sb.WriteString("/-- lut[idx+1] accumulates the cardinalities of the earlier containers -/\n")
 		sb.WriteString("def lutCumulative : Bool := " + c10Bool(cum) + "\n\n")
 
+		// ---- PrepareFlush swap condition of the three stores
+		_, mid, err := ParseFile(repo, "index/metric_index_database.go")
+		if err != nil {
+			return "", err
+		}
+		fsm := token.NewFileSet()
+		var conds []string
+		for _, t := range []struct {
+			f          *ast.File
+			recv, name string
+		}{{ks, "indexKVStore", "PrepareFlush"}, {mid, "invertedIndex", "prepareFlush"}, {mid, "forwardIndex", "prepareFlush"}} {
+			fd := FindFunc(t.f, t.recv, t.name)
+			if fd == nil {
+				return "", fmt.Errorf("%s.%s not found", t.recv, t.name)
+			}
+			found := false
+			ast.Inspect(fd, func(n ast.Node) bool {
+				if is, ok := n.(*ast.IfStmt); ok && !found {
+					conds = append(conds, c10Src(fsm, is.Cond))
+					found = true
+				}
+				return true
+			})
+			if !found {
+				return "", fmt.Errorf("%s.%s: no if statement", t.recv, t.name)
+			}
+		}
+		sb.WriteString("def prepareConds : List String := " + LeanStrList(conds) + "\n")
+		onEmpty := true
+		for _, c := range conds {
+			if !strings.Contains(c, "IsEmpty()") || !strings.Contains(c, "||") {
+				onEmpty = false
+			}
+		}
+		sb.WriteString("/-- PrepareFlush swaps the tables also when the immutable table is empty -/\n")
+		sb.WriteString("def prepareOnEmpty : Bool := " + c10Bool(onEmpty) + "\n\n")
+
 		// ---- Rewrite() formats
 		_, ex, err := ParseFile(repo, "sql/stmt/expr.go")
 		if err != nil {
